@@ -45,6 +45,7 @@ def read_traces(prefix, limit=None, rng=None):
                     continue
                 if "sqlgen" in ev:
                     continue
+                ev.setdefault("backend", "pandas")
                 cur.append(ev)
                 if ev["depth"] == 0:
                     key = hashlib.sha1(json.dumps([{k: v for k, v in e.items() if k != "seq"} for e in cur], sort_keys=True).encode()).hexdigest()
@@ -103,9 +104,29 @@ def validate(traces, tr, what):
 
 def classify(trace, law, idx):
     ev = trace[idx]
-    if law == "rows" and ev["kind"] == "ProjectNode" and ev["n_groups_nonnull"] < ev["n_groups"] and ev["out_rows"] == ev["n_groups_nonnull"]:
+    if (law == "rows" and ev["backend"] == "pandas" and ev["kind"] == "ProjectNode" and ev["n_groups_nonnull"] < ev["n_groups"]
+            and ev["out_rows"] == ev["n_groups_nonnull"]):
         return "pandas_drops_null_groups"
     return None
+
+
+def _corrupted(traces):
+    """[(trace, law, event index)]: copies of recorded traces with one field of one event changed"""
+    out = []
+    for t in traces:
+        if all(e["ok"] for e in t) and all(e["out_rows"] >= 0 and min(e["in_rows"] + [0]) >= 0 for e in t):
+            c = json.loads(json.dumps(t))
+            c[-1]["out_cols"] = c[-1]["out_cols"] + ["verif_extra_column"]
+            out.append((c, "columns", len(c) - 1))
+            break
+    for t in traces:
+        idx = [i for i, e in enumerate(t) if e["ok"] and e["kind"] == "ExtendNode" and e["out_rows"] >= 0 and min(e["in_rows"] + [0]) >= 0]
+        if idx:
+            c = json.loads(json.dumps(t))
+            c[idx[0]]["out_rows"] = c[idx[0]]["out_rows"] + 1
+            out.append((c, "rows", idx[0]))
+            break
+    return out
 
 
 def run(prop, vd, stats, tr, prefix, tier, laws=("columns", "rows", "walk")):
@@ -115,11 +136,22 @@ def run(prop, vd, stats, tr, prefix, tier, laws=("columns", "rows", "walk")):
     own = read_traces(prefix, limit=(4000 if quick else 40000))
     repo, ntests = repo_test_traces()
     out = {"executor_traces_from_replay": len(own), "executor_traces_from_repo_tests": len(repo), "repo_test_files_run": ntests,
-           "executor_events": sum(len(t) for t in own) + sum(len(t) for t in repo)}
+           "executor_events": sum(len(t) for t in own) + sum(len(t) for t in repo),
+           "executor_traces_polars": sum(1 for t in own + repo if t[-1]["backend"] == "polars")}
     for name, traces in (("replayed behaviours", own), ("repository tests", repo)):
-        rej = validate(traces, tr, "step events of %d Pandas evaluations (%s) validated by Trace_ExecSteps" % (len(traces), name))
+        rej = validate(traces, tr, "step events of %d Pandas / Polars evaluations (%s) validated by Trace_ExecSteps" % (len(traces), name))
+        # binding self-test: corrupted copies of ACCEPTED traces (one more column than declared; one row too many after
+        # an extend) must be rejected at the corrupted event
+        controls = _corrupted([t for i, t in enumerate(traces) if i not in rej])
+        if controls:
+            crej = validate([c[0] for c in controls], tr, "corrupted copies of accepted traces (%s) must be rejected" % name)
+            for k, (ct, law, idx) in enumerate(controls):
+                if crej.get(k) != (law, idx):
+                    raise common.MachineryError("Trace_ExecSteps did not reject a corrupted trace (%s at event %d): %r" % (law, idx, crej.get(k)))
+                stats["trace:corrupted_control_rejected"] += 1
         for ti, (law, idx) in sorted(rej.items()):
-            if law not in laws:
+            # laws: "columns" | "walk" | "rows" (every node kind) | "rows:<NodeKind>" (the row law of that kind only)
+            if law not in laws and ("%s:%s" % (law, traces[ti][idx]["kind"])) not in laws:
                 stats["trace_rejections_for_other_properties"] += 1
                 continue
             fid = classify(traces[ti], law, idx)
@@ -128,6 +160,7 @@ def run(prop, vd, stats, tr, prefix, tier, laws=("columns", "rows", "walk")):
                 stats["trace:KF:" + fid] += 1
                 continue
             stats["trace:rejected"] += 1
+            stats["trace:rejected:%s" % traces[ti][idx]["backend"]] += 1
             vd.violation({"kind": "executor-trace", "source": name, "law": law, "event_index": idx, "event": traces[ti][idx],
                           "trace": traces[ti]}, tag="trace:%s:%s" % (law, traces[ti][idx]["kind"]))
         stats["trace:accepted"] += len(traces) - len(rej)
